@@ -180,6 +180,8 @@ use simple_mermaid::mermaid;
 mod macros;
 mod region_cached;
 mod region_cached_ext;
+#[cfg(folo_verif)]
+pub mod verif_hook;
 
 pub use region_cached::*;
 pub use region_cached_ext::*;
